@@ -268,6 +268,16 @@ func (e *Engine) installIntrinsics() {
 		}
 		return nil
 	}
+	// vfUseReal(callee): execute the real callee (from SSA) instead of its model on this path;
+	// vfUseRealPkg(path): execute a normally non-executed package from its SSA
+	in[hp+"vfUseReal"] = func(m *machine, _ *frame, _ *ssa.Function, args []value) value {
+		m.side["real:"+concStr(m, args[0], "callee")] = true
+		return nil
+	}
+	in[hp+"vfUseRealPkg"] = func(m *machine, _ *frame, _ *ssa.Function, args []value) value {
+		m.side["realpkg:"+concStr(m, args[0], "package")] = true
+		return nil
+	}
 	in[hp+"vfHeldBy"] = func(m *machine, _ *frame, _ *ssa.Function, args []value) value {
 		return nil
 	}
